@@ -564,6 +564,15 @@ example : netmapAfter.map (fun st => ((nmNetmap st.store).map ser, (nmCandidates
 example : (nmSnapshotAt netmapOldStore 1).map ser = some (ser (.array [])) ∧
     netmapAfter.map (fun st => ((nmSnapshotAt st.store 1).map ser, get st.store (snapshotKey 1))) =
       some (some (ser (.array [])), some (ser (.array []))) := by decide
+-- a ring longer than the default 10: the loop is bounded by the STORED count, slot 11 is converted as well; with a
+-- stored count of 3 a stale slot 5 is not touched
+def ringStore (count : Nat) (slot : Nat) : Store :=
+  [(snapshotKey slot, ser (.array [.struct [.bytes nodeBlob]])), (netmap_snapshotCountKey_bytes, [count]),
+   (balanceHashKey, [11]), (containerHashKey, [12])]
+example : (update .netmap ⟨15004, ringStore 12 11⟩ byCommittee .null true).map (fun st => get st.store (snapshotKey 11)) =
+    some (some (ser (.array [.struct [.bytes nodeBlob, .int 1]]))) := by decide
+example : (update .netmap ⟨15004, ringStore 3 5⟩ byCommittee .null true).map (fun st => get st.store (snapshotKey 5)) =
+    some (get (ringStore 3 5) (snapshotKey 5)) := by decide
 example : netmapAfter.map (fun st => (nmConfig st.store, nmSubscribers st.store, get st.store balanceHashKey)) =
     some ([([65], [9])], [[11], [12]], none) := by decide
 
